@@ -1346,6 +1346,21 @@ func (fc *FnCtx) havocLoop(fr *Frame, st *State, li *loopInfo) {
 				}
 			}
 		}
+		if ci, ok := instr.(ssa.CallInstruction); ok {
+			for _, a := range ci.Common().Args {
+				v := a
+				if mi, isMI := a.(*ssa.MakeInterface); isMI {
+					v = mi.X
+				}
+				if bases, ok := allocBases(v, 0); ok {
+					for _, b := range bases {
+						if !li.body[b.Block()] {
+							storeOutside = true // callee may fill an object allocated before the loop
+						}
+					}
+				}
+			}
+		}
 		for h, kind := range instrWrites(fc.eng, instr) {
 			if storeOutside {
 				kind = wFull
